@@ -146,7 +146,7 @@ def gen_growth(rng, k, root, zero_p):
         if rng.random() < zero_p:
             out.append(0.0)
         else:
-            out.append(rng.choice([-1, 1]) * rng.uniform(0.2, 3.0) / root)
+            out.append(rng.choice([-1, 1]) * rng.uniform(0.5, 3.0) / root)
     return out
 
 
